@@ -30,6 +30,9 @@ type C20Case struct {
 	// Recap[i] >= 0: EnableKeyCache(Recap[i]) is called again before document i
 	// (an application re-configuring the cache per batch)
 	Recap []int `json:"recap,omitempty"`
+	// Reset[i]: Reset() is called on both unfolders before document i (what an
+	// application does with a pooled unfolder); the cache stays enabled
+	Reset []bool `json:"reset,omitempty"`
 }
 
 func c20TargetType(name string) reflect.Type {
@@ -192,6 +195,9 @@ func checkC20(ci any, info *CaseInfo) string {
 		run := func(u *gotype.Unfolder) (reflect.Value, Outcome) {
 			target := reflect.New(typ)
 			o := guard(func() error {
+				if i < len(c.Reset) && c.Reset[i] {
+					u.Reset()
+				}
 				if err := u.SetTarget(target.Interface()); err != nil {
 					return err
 				}
@@ -326,6 +332,11 @@ func drawC20(t *rapid.T) any {
 			c.Recap = append(c.Recap, r)
 		}
 	}
+	if rapid.IntRange(0, 2).Draw(t, "resets") == 0 {
+		for i := 0; i < nd; i++ {
+			c.Reset = append(c.Reset, i > 0 && rapid.Bool().Draw(t, "resetat"))
+		}
+	}
 	if c.Via != "direct" && rapid.Bool().Draw(t, "chunk") {
 		n := rapid.IntRange(1, 5).Draw(t, "ncuts")
 		for i := 0; i < n; i++ {
@@ -340,7 +351,7 @@ func drawC20(t *rapid.T) any {
 func init() {
 	register(&Property{
 		ID:    "C20",
-		Rule:  "histories of 1..8 documents whose keys come from a 10-key alphabet, 1 in 3 histories from 3..8 generated keys (one- and two-byte keys over the whole byte range, escapes, long keys) (hits, misses, evictions, re-insertions; empty, non-ASCII and long keys; duplicates within a document) delivered BY REFERENCE from scratch buffers that are overwritten right after every callback / Write — directly and through the json, ubjson and cborl parsers with generated chunkings — into map[string]interface{}, map[string]int, interface{}, reflection-built map[string]struct and struct{M map[string][]int}, with key-cache capacity in {0,1,2,3,5,8,64}, 1 in 4 histories re-configuring it (same, smaller or larger capacity) between documents; oracle = after every document the result equals that of an identical unfolder without cache, all earlier results are re-checked at the end (cached keys intact), the cache never exceeds its capacity, no panic; non-trivial = at least one eviction followed by a re-insertion of the evicted key (measured through the recency hook); distinct by case hash",
+		Rule:  "histories of 1..8 documents whose keys come from a 10-key alphabet, 1 in 3 histories from 3..8 generated keys (one- and two-byte keys over the whole byte range, escapes, long keys) (hits, misses, evictions, re-insertions; empty, non-ASCII and long keys; duplicates within a document) delivered BY REFERENCE from scratch buffers that are overwritten right after every callback / Write — directly and through the json, ubjson and cborl parsers with generated chunkings — into map[string]interface{}, map[string]int, interface{}, reflection-built map[string]struct and struct{M map[string][]int}, with key-cache capacity in {0,1,2,3,5,8,64}, 1 in 4 histories re-configuring it (same, smaller or larger capacity) between documents, 1 in 3 histories calling Reset() on both unfolders before some documents; oracle = after every document the result equals that of an identical unfolder without cache, all earlier results are re-checked at the end (cached keys intact), the cache never exceeds its capacity, no panic; non-trivial = at least one eviction followed by a re-insertion of the evicted key (measured through the recency hook); distinct by case hash",
 		New:   func() any { return &C20Case{} },
 		Draw:  drawC20,
 		Check: checkC20,
